@@ -620,9 +620,10 @@ func main() {
 			defer pprof.StopCPUProfile()
 		}
 	}
-	rep.SetRule("families of queries (all 65536 types; all 65536 classes; type x class x AD/CD/DO grids; single- and double-bit neighbours of random (type,class,flags) triples; random triples; names: every wire length 1..255, every single-byte and two-byte label, one-byte substitutions, case variants, label-boundary / escaped-dot variants, escape-alphabet enumeration, extra leading/trailing labels, name x type x class grids; AD/CD/DO x layouts of Q()'s additional section (other records before/after the OPT); bypass messages; every query of every family also gets a random such layout) are run through the real cache plugin on fresh caches sized 4x the family, once in insertion order and once in reverse: pass 1 stores a unique marker per query, pass 2 replays all queries. One case = (question, order); non-trivial = the query was answered from the cache in pass 2 and the marker it carried was compared with its own (bypass cases: the message reached the terminal with no response set); distinct = distinct (name, type, class, AD, CD, DO, order)")
+	rep.SetRule("families of queries (all 65536 types; all 65536 classes; type x class x AD/CD/DO grids; single- and double-bit neighbours of random (type,class,flags) triples; random triples; names: every wire length 1..255, every single-byte and two-byte label, one-byte substitutions, case variants, label-boundary / escaped-dot variants, escape-alphabet enumeration, extra leading/trailing labels, name x type x class grids; AD/CD/DO x layouts of Q()'s additional section (other records before/after the OPT); bypass messages; every query of every family also gets a random such layout) are run through the real cache plugin on fresh caches sized 4x the family, once in insertion order and once in reverse: pass 1 stores a unique marker per query, pass 2 replays all queries. One case = (question, order); non-trivial = the query was answered from the cache in pass 2 and the marker it carried was compared with its own (bypass cases: the message reached the terminal with no response set); distinct = distinct (name, type, class, AD, CD, DO, order). Chain phase (chains.go): the real cache inside sequences built from rule text with name-rewriting wrappers in front of it and/or behind it (the real redirect plugin: alias->target, alias->intermediate->target across the cache; an in-place lower-casing wrapper), `matches: has_resp / exec: accept` behind the cache, a stub upstream that answers with a marker naming the question IT was asked, a post-processing plugin that can fail after the response was set (also inside a background refresh), and in some layouts a hosts-like plugin in front of everything that already set a response for the client's own question; seeded scripts of client queries (aliases, intermediates, targets, unrelated names, case variants, name lengths over all key-buffer size classes, 6 types, IN/CH, AD/CD/DO, injected failures after / without a response) and lazy_cache_ttl scripts (entries go stale, their background refreshes are parked at the upstream while same-key-length and other queries pass, then finish; half of them on a single P); one case = one client query; every served response is judged: question section == client question and marker issued by the upstream for the question the rewriters lead to (or by the plugin in front for the client's name / the name the cache sees), with the client's type, class, AD/CD/DO; non-trivial = served from the cache, distinct = (layout, lazy, asker role, who stored the entry incl. failed chains / background refresh, fresh|stale, flags, type, class, key length)")
 	rep.Assume("'query' = the message the cache plugin is given, qCtx.Q(): query_context does not forward the client's OPT/DO, so DO is varied on Q()'s own OPT; queries differing only in ID, RD, the client's OPT or the other records a plugin placed around Q()'s OPT may share an entry")
 	rep.Assume("names are compared byte-exactly on the wire (case variants and escaped-dot variants are different questions: the cached response carries the stored question section)")
+	rep.Assume("chain phase: a response is \"served\" when the sequence returns no error and a response is set (on an error the server answers SERVFAIL itself); the model of the rewriters (redirect: case-insensitive full match, class IN only; wrapper: lower-casing) decides which question the upstream has to be asked; nothing is demanded about CNAME records, TTLs or whether a failed chain's response is stored")
 	rep.Assume("client queries are built with the independent wire builder, unpacked by miekg/dns as the server does, and Q() is packed again and compared with the intended question by the independent parser before use")
 
 	var fams []*family
